@@ -187,6 +187,17 @@ def truth(node: Any, v: Any, dim: Dimension) -> FrozenSet[bool]:
         return frozenset(p or q for p in x for q in y)
     if k == "not":
         return frozenset(not p for p in truth(node[1], v, dim))
+    closure = getattr(dim, "closure", None)
+    if closure is not None:
+        # relaxed evaluation (used only to attribute a known finding): the leaf may take the
+        # truth value it has for any value of the closure of v
+        out = set()
+        for u in closure(v):
+            val = ev(node, u, dim)
+            if val is FREE or not isinstance(val, int):
+                return BOTH
+            out.add(val != 0)
+        return frozenset(out)
     val = ev(node, v, dim)
     if val is FREE or not isinstance(val, int):
         return BOTH
@@ -420,6 +431,9 @@ class IndexDim(Dimension):
         return FREE
 
 
+RELAX: Set[str] = set()  # oracle relaxations switched on while attributing known findings
+
+
 class UintFieldDim(Dimension):
     """Own uint64 field read through ``txn F`` (Fee)."""
 
@@ -427,6 +441,9 @@ class UintFieldDim(Dimension):
         self.name = field
         self.field = field
         self.values = values
+        if "fee-upper-bounds-only" in RELAX and field == "Fee":
+            # an analysis that keeps upper bounds only admits v whenever some larger value passes
+            self.closure = lambda v: [u for u in self.values if u >= v]
 
     def read(self, node: Any, v: Any) -> Any:
         if node[1] == "txn" and node[2] == self.field:
